@@ -117,12 +117,18 @@ func progs() []prog {
 			order := ""
 			vrt.Go(func() {
 				vrt.Send(ch, 1)
-				mu.Lock(); order += "a"; mu.Unlock()
+				mu.Lock()
+				order += "a"
+				mu.Unlock()
 				vrt.Send(ch, 2)
-				mu.Lock(); order += "b"; mu.Unlock()
+				mu.Lock()
+				order += "b"
+				mu.Unlock()
 			})
 			x := vrt.Recv(ch)
-			mu.Lock(); order += "r"; mu.Unlock()
+			mu.Lock()
+			order += "r"
+			mu.Unlock()
 			y := vrt.Recv(ch)
 			vrt.Join()
 			return fmt.Sprint(x, y, " ", sortStr(order))
